@@ -4,6 +4,7 @@ package sym
 
 import (
 	"fmt"
+	"os"
 	"sort"
 	"strings"
 	"sync"
@@ -36,6 +37,7 @@ type Explorer struct {
 	unknowns map[string]int
 
 	transitions int64
+	started     int64
 	Stats       SolverStats
 	TimedOut    bool
 	PathCapHit  bool
@@ -46,6 +48,17 @@ func (ex *Explorer) push(prefix []int64) {
 	ex.work = append(ex.work, prefix)
 	ex.mu.Unlock()
 	ex.cond.Signal()
+}
+
+// sampleModel decides whether the next path gets a solver model for the native
+// cross-check: the first 40 paths, then a thinning fraction (model extraction of thousands
+// of input bytes costs more than exploring the path).
+func (ex *Explorer) sampleModel() bool {
+	n := atomic.AddInt64(&ex.started, 1)
+	if n <= 40 {
+		return true
+	}
+	return n%(1+n/25) == 0
 }
 
 func (ex *Explorer) addTransitions(n int) { atomic.AddInt64(&ex.transitions, int64(n)) }
@@ -148,7 +161,12 @@ func (ex *Explorer) Run() error {
 				if !ok {
 					break
 				}
-				r := m.RunPath(ex.Harness, prefix, ex.WantModel)
+				pt0 := time.Now()
+				st0 := solver.Stats.Time
+				r := m.RunPath(ex.Harness, prefix, ex.WantModel && ex.sampleModel())
+				if d := time.Since(pt0); d > 3*time.Second && os.Getenv("HCSYM_DEBUG") != "" {
+					fmt.Fprintf(os.Stderr, "slow path %.1fs (solver %.1fs) steps=%d end=%s decisions=%v facts=%v\n", d.Seconds(), (solver.Stats.Time - st0).Seconds(), r.Steps, r.End, r.Decisions, r.Facts)
+				}
 				ex.done(r)
 				// keep the term table from growing without bound
 				if m.tt.nextID > 3000000 {
